@@ -362,6 +362,12 @@ def class_key(shape):
 
 def run_job(job, w):
     w.max_samples = 1
+    if "controller" in job:
+        # second slice: the loop is unrolled by a real Controller and the aggregate / latest references are
+        # resolved by the real code when the consumers outside the loop are launched
+        from rt import dowhile_rt
+        dowhile_rt.run_controller_scenarios(job, w)
+        return
     shapes = []
     if "shape" in job:
         shapes.append(job["shape"])
@@ -448,7 +454,15 @@ def main():
     per = 2 if tier == "quick" else 4
     idxs = list(range(n_shapes))
     jobs = [{"indices": idxs[i:i + per], "K": K} for i in range(0, len(idxs), per)]
+    from rt import dowhile_rt
+    crng = vlib.rng(PROP, "controller")
+    n_ctl = 4 if tier == "quick" else 16
+    for i in range(n_ctl):
+        jobs.append({"controller": dowhile_rt.make_scenarios(crng, 4, 3 if (tier == "quick" or i % 4) else 12),
+                     "K_dil": 20.0})
     vlib.fanout("checks.C05", jobs, c, timeout=600 if tier == "quick" else 1500)
+    c.floor("clause_rt_aggregate_checked", 8 if tier == "quick" else 40)
+    c.floor("clause_rt_latest_checked", 8 if tier == "quick" else 40)
     c.extra["K"] = K
     c.extra["shapes"] = n_shapes
     c.floor("shapes_completed_to_K", 25 if tier == "quick" else 300)
